@@ -10,6 +10,7 @@ type Case struct {
 	Family string
 	Coord  string // coarse coordinates for signatures (family + the dimension values that matter)
 	P      *Program
+	Rule   *RuleSpec // set for the rule matrix
 }
 
 func file(dir, name string) *File { return &File{Dir: dir, Name: name} }
